@@ -250,6 +250,7 @@ def run(case, solver_obj=None, keep=False):
                 solver.callbacks.register(CallbackType.ComputedStep,
                                           lambda it, nx, acc: ann.append({"z": it.z.tolist(), "zn": nx.z.tolist(), "acc": bool(acc),
                                                                           "rho": float(getattr(solver, "rho", 0.0))}))
+            out["constructed"] = True
             res = solver.solve(x0, y0)
             out.update(kind="status", status=res.status.name, x=[float(v) for v in res.x], y=[float(v) for v in res.y],
                        d=[float(v) for v in res.d], iters=int(res.iterations), nacc=int(res.num_accepted_steps),
@@ -267,6 +268,8 @@ def run(case, solver_obj=None, keep=False):
                 kind = "linesearch_error"
             elif type(e).__name__ == "DerivError":
                 kind = "deriv_error"
+            elif not out.get("constructed"):
+                kind = "construct_error"          # raised by Solver(...) / Params(...), before solve() was entered
             out.update(kind=kind, exc=type(e).__name__, msg=msg[:200], frame=innermost_frame(e.__traceback__),
                        tb=traceback.format_exc()[-700:] if kind == "crash" else None)
     finally:
@@ -324,27 +327,27 @@ class FaultyProblem:
     def obj_grad(self, x):
         v = np.array(self.inner.obj_grad(x), dtype=float)
         if self._bad("obj_grad", x):
-            v[0] = np.inf
+            v[:] = np.inf
         return v
 
     def cons(self, x):
         v = np.array(self.inner.cons(x), dtype=float)
         if self._bad("cons", x) and len(v):
-            v[0] = np.nan
+            v[:] = np.nan
         return v
 
     def cons_jac(self, x):
         J = self.inner.cons_jac(x)
         if self._bad("cons_jac", x) and J.nnz:
             J = J.copy().astype(float)
-            J.data[0] = np.nan
+            J.data[:] = np.nan
         return J
 
     def lag_hess(self, x, y):
         H = self.inner.lag_hess(x, y)
         if self._bad("lag_hess", x) and H.nnz:
             H = H.copy().astype(float)
-            H.data[0] = np.inf
+            H.data[:] = np.inf
         return H
 
 
